@@ -64,10 +64,13 @@ def P7(m, R):
     lst = None
     sel_ok = None
     for n in ins.body:
-        if isinstance(n, ast.Assign) and isinstance(n.value, ast.IfExp) and isinstance(n.targets[0], ast.Name) and names_in(n.value.test) == {apply_p}:
-            lst = norm(n.targets[0])
-            tv = eval_guard(n.value.test, flag_valuation({apply_p: True}))
-            a, b = (n.value.body, n.value.orelse) if tv else (n.value.orelse, n.value.body)
+        # (the model writes `x = a if c else b` as an if / else of two assignments)
+        if isinstance(n, ast.If) and names_in(n.test) == {apply_p} and len(n.body) == 1 and len(n.orelse) == 1 and \
+                all(isinstance(x, ast.Assign) and isinstance(x.targets[0], ast.Name) for x in (n.body[0], n.orelse[0])) and \
+                norm(n.body[0].targets[0]) == norm(n.orelse[0].targets[0]):
+            lst = norm(n.body[0].targets[0])
+            tv = eval_guard(n.test, flag_valuation({apply_p: True}))
+            a, b = (n.body[0].value, n.orelse[0].value) if tv else (n.orelse[0].value, n.body[0].value)
             sel_ok = (norm(a) == 'self.' + ro.START and norm(b) == 'self.' + ro.STOP and tv is not None, norm(a), norm(b))
     if lst is None:
         R.undecided(ins, ins.node, 'list selection not recognised', construct=cons)
@@ -79,8 +82,11 @@ def P7(m, R):
     try:
         for tv in (True, False):
             ev = []
+            loc = {}
 
-            def visit(st):
+            def visit(st, loc=loc):
+                if isinstance(st, ast.Assign) and len(st.targets) == 1 and isinstance(st.targets[0], ast.Name):
+                    loc[st.targets[0].id] = st.value
                 if isinstance(st, ast.Expr) and isinstance(st.value, ast.Call) and call_name(st.value) == 'extend' and norm(st.value.func.value) == lst:
                     ev.append(('append', norm(st.value.args[0])))
                 elif isinstance(st, ast.AugAssign) and norm(st.target) == lst and isinstance(st.op, ast.Add):
@@ -92,10 +98,9 @@ def P7(m, R):
                         if e is None:
                             return None
                         e = subst(e, {k: v for k, v in ial.items()})
-                        # locals assigned from a conditional expression on topmost
-                        for a_ in ins.body:
-                            if isinstance(a_, ast.Assign) and isinstance(e, ast.Name) and norm(a_.targets[0]) == e.id:
-                                e = a_.value
+                        # locals assigned on the way (under the decided topmost)
+                        if isinstance(e, ast.Name) and e.id in loc:
+                            e = loc[e.id]
                         while isinstance(e, ast.IfExp):
                             r = eval_guard(e.test, flag_valuation({top_p: tv}))
                             if r is None:
@@ -109,7 +114,7 @@ def P7(m, R):
                         ev.append(('append', norm(st.value)))
                     else:
                         ev.append(('slice %s:%s' % (lo, hi), norm(st.value)))
-            run_block([x for x in ins.body], flag_valuation({top_p: tv}, {
+            run_block([x for x in ins.body], flag_valuation({top_p: tv, apply_p: True}, {
                 'isinstance(%s, list)' % settings_p: True, 'isinstance(%s, tuple)' % settings_p: False, 'isinstance(%s, (list, tuple))' % settings_p: True,
                 'not isinstance(%s, list)' % settings_p: False, 'not isinstance(%s, tuple)' % settings_p: True}), visit)
             where[tv] = ev
